@@ -175,7 +175,11 @@ def envFromFileD (D : FSData) (cur : Env) : List String → Env → Out Env
 
 def worldOf (D : FSData) (loadModel : String → String → List String → Env → List String → Out KVs) : World :=
   { cwd := D.cwd, isDir := dIsDir D, isFile := dIsFile D,
-    envFromFile := fun cur fs => envFromFileD D cur fs [], loadModel := loadModel }
+    envFromFile := fun cur fs => envFromFileD D cur fs [], loadModel := loadModel,
+    resolveRes := fun base key v =>
+      match resolvePaths base [(key, .map [("x", v)])] with
+      | [(_, .map [(_, r)])] => some r
+      | _ => none }
 
 def loadDocs (W : World) (wd L : String) (env : Env) (chain : List String) : List Val → KVs → Out KVs
   | [], dict => .ok dict
